@@ -670,6 +670,21 @@ func Judge(tr *Trace) []Finding {
 			add("C14", "C14/not-closed-after-end", fmt.Sprintf("subscription %d ended by %s but its channel was never closed", i, st.Ended))
 		}
 	}
+	// a conversation in which nothing can go wrong -- no connection fault, no loss, and the server
+	// sends only well-formed next / complete frames for ids it was given -- must not make the
+	// reader give up: every later message of every subscription depends on it
+	if cleanSpec(tr.Spec) && tr.StartOK && tr.ReaderPanic == "" {
+		var errs []string
+		for _, e := range tr.ErrsSeen {
+			// the controller itself drops the connection at the very end of a schedule without Close
+			if !strings.Contains(e, "verif: connection lost") {
+				errs = append(errs, e)
+			}
+		}
+		if len(errs) > 0 {
+			add("C14", "C14/reader-gave-up-without-cause", fmt.Sprintf("no fault, no loss, only well-formed frames for known ids, yet the client reported %v and stopped reading: nothing more can be delivered", errs))
+		}
+	}
 	// ---- C15 ----
 	if len(tr.Frames) > 0 {
 		f0 := tr.Frames[0]
@@ -750,6 +765,47 @@ func Judge(tr *Trace) []Finding {
 	return out
 }
 
+// cleanSpec: no connection operation is made to fail, the connection is not lost, and every
+// server frame after the handshake is a next (data or GraphQL errors) or complete frame for a
+// subscription index (whose id the server can only know from a subscribe frame).
+func cleanSpec(sp *Spec) bool {
+	if sp.FaultK != 0 || sp.FailFrom {
+		return false
+	}
+	apiSeen, acked := false, false
+	for _, a := range sp.Actions {
+		switch a.Op {
+		case "lost":
+			return false
+		case "call":
+			if a.Kind != "Start" {
+				apiSeen = true
+			}
+		case "server":
+			if a.Frame == nil {
+				return false
+			}
+			switch a.Frame.Type {
+			case "next", "errpayload", "complete":
+				if a.Frame.Sub < 0 {
+					return false
+				}
+			case "ack", "ping":
+				// part of the handshake only (a ping after it is outside what C13/C14 quantify over)
+				if apiSeen || acked {
+					return false
+				}
+				if a.Frame.Type == "ack" {
+					acked = true
+				}
+			default:
+				return false
+			}
+		}
+	}
+	return true
+}
+
 func firstLog(tr *Trace, prefix string) string {
 	for _, l := range tr.Log {
 		if strings.HasPrefix(l, prefix) {
@@ -792,6 +848,12 @@ func GenSpec(r *core.Rng, id int, maxSubs, maxSrv, length int) *Spec {
 	if sp.FaultK > 3 && r.Chance(0.3) {
 		sp.FailFrom = true
 	}
+	// every third schedule is a conversation in which nothing can go wrong (no fault, no loss,
+	// only well-formed frames for known ids)
+	clean := id%3 == 1
+	if clean {
+		sp.FaultK, sp.FailFrom = 0, false
+	}
 	acts := []Action{{Op: "call", Kind: "Start", T: "start"}, {Op: "step", T: "start"}, {Op: "step", T: "start"}}
 	if r.Chance(0.2) {
 		acts = append(acts, Action{Op: "server", Frame: &SrvFrame{Type: r.Pick([]string{"ping", "ping", "garbage"}), Sub: -1}}, Action{Op: "step", T: "start"})
@@ -830,8 +892,24 @@ func GenSpec(r *core.Rng, id int, maxSubs, maxSrv, length int) *Spec {
 				sub = r.Intn(nsubs)
 			}
 			typ := r.Pick([]string{"next", "next", "next", "next", "errpayload", "complete", "complete", "error", "badpayload", "garbage", "ping"})
+			if clean {
+				// nothing that entitles the client to give up
+				if typ == "error" || typ == "badpayload" || typ == "garbage" || typ == "ping" {
+					typ = "next"
+				}
+				if sub < 0 {
+					if nsubs == 0 {
+						continue
+					}
+					sub = 0
+				}
+			}
 			acts = append(acts, Action{Op: "server", Frame: &SrvFrame{Type: typ, Sub: sub}})
 		case k < 47:
+			if clean {
+				acts = append(acts, Action{Op: "step", T: "reader"})
+				continue
+			}
 			acts = append(acts, Action{Op: "lost"})
 		case k < 62 && nsubs > 0:
 			acts = append(acts, Action{Op: "recv", Sub: r.Intn(nsubs)})
